@@ -51,6 +51,21 @@ def _case(draw):
     gi = R.glyph_index(spec)
     for g in spec["glyphs"]:
         g["contours"] = [c if not point_contour(c) else [[0, 0, "line"], [40, 0, "line"], [20, 30, "line"]] for c in g.get("contours", [])]
+    if draw(st.integers(0, 4)) == 0:
+        # no outline touches the origin: every simple glyph is shifted into the open upper-right quadrant (the synthesised .notdef starts at x=50),
+        # so the font bounding box does not contain (0, 0) on the left / bottom side
+        dx, dy = draw(st.sampled_from([45, 120.5])), draw(st.sampled_from([0, 30]))
+        for g in spec["glyphs"]:
+            if g.get("contours") and not g.get("components"):
+                mx = min(p[0] for c in g["contours"] for p in c)
+                my = min(p[1] for c in g["contours"] for p in c)
+                g["contours"] = [[[p[0] - mx + dx, p[1] - my + dy, p[2]] for p in c] for c in g["contours"]]
+        spec["glyphs"] = [g for g in spec["glyphs"] if not g.get("components")]
+        spec["_positive"] = True
+    if draw(st.integers(0, 5)) == 0:
+        # a stored glyph order that repeats a name
+        nm = [g["name"] for g in spec["glyphs"]]
+        spec["glyphOrder"] = list(draw(st.permutations(nm))) + [draw(st.sampled_from(nm))]
     vertical = draw(st.booleans())
     if vertical:
         spec["info"].update({"openTypeVheaVertTypoAscender": 500, "openTypeVheaVertTypoDescender": -500, "openTypeVheaVertTypoLineGap": 0})
@@ -59,7 +74,10 @@ def _case(draw):
             if draw(st.sampled_from([True, False, False])):
                 g["verticalOrigin"] = draw(st.sampled_from([880, 880, 800, 750.5]))
     flavour = draw(st.sampled_from(["ttf", "cff", "cff2"]))
+    positive = spec.pop("_positive", False)
     case = {"spec": spec, "module": draw(st.sampled_from(["ufoLib2", "defcon"])), "flavour": flavour}
+    if positive:
+        case["positive"] = True
     if flavour != "ttf":
         case["tol"] = draw(st.sampled_from([None, None, 0, 0.25]))
         case["opt"] = draw(st.sampled_from([0, 1, 2]))
@@ -508,6 +526,10 @@ def run_case(case, ctx):
     # classification
     adv = [t3["hmtx"][n][0] for n in order]
     ctx.label(flavour)
+    if case.get("positive"):
+        ctx.label("no-outline-touches-the-origin")
+    if spec.get("glyphOrder") and len(set(spec["glyphOrder"])) != len(spec["glyphOrder"]):
+        ctx.label("stored-order-repeats-a-name")
     if case.get("tol") is not None:
         ctx.label("roundTolerance=%s" % case["tol"])
     if "vmtx" in t3:
